@@ -239,13 +239,33 @@ def oracle(line, out, mode):
     if not crcs_filled(b1) or b1 != ref:
         return "CRC values after to_json are not those of the reference encoder"
     if text != ref_text(ref_tree(ref)):
-        return "JSON text differs from the reference rendering"
+        # white space and the choice of string escapes are not part of any property: compare the JSON VALUES
+        import json as _json
+        try:
+            if _json.loads(text.decode("utf-8")) != _json.loads(ref_text(ref_tree(ref)).decode("utf-8")):
+                return "JSON value differs from the reference rendering"
+        except (ValueError, UnicodeDecodeError):
+            return "to_json does not print JSON"
     if parts[1][0] != "OK":
         return "the library cannot parse its own JSON (%s)" % ("fragment" if b["p"]["flags"] & genb.IS_FRAGMENT else "non-fragment")
     d = genb.parse_bundle(genb.T(parts[1][1:]))
     if d != ref:
         return "bundle parsed back from JSON differs from the serialised one"
     return None
+
+
+def canon(out):
+    """the JSON text is compared as a JSON value (white space, escape style and number spelling are free)"""
+    import json as _json
+    import runner
+    if out and out.startswith("OK x"):
+        head, _, rest = out[3:].partition(" ")
+        try:
+            v = _json.loads(bytes.fromhex(head[1:]).decode("utf-8"))
+            return runner.default_canon("OK J" + _json.dumps(v, separators=(",", ":"), ensure_ascii=True) + " " + rest)
+        except (ValueError, UnicodeDecodeError):
+            pass
+    return runner.default_canon(out)
 
 
 def same(line, io, mo):
